@@ -181,6 +181,27 @@ Proof.
   split; [exact Ec | exact (C07_covering_difference ba bb _ _ outc Wa Wb Ec)].
 Qed.
 
+(** Reachable states.  For any two histories of public mutating calls (over [L] resp. [R]; running
+    the same history twice gives two views of one map) and any two valid [view_at] positions, the
+    resulting views are well-formed operands — every reachable state is well-formed (C15,
+    [Common.reachable_wfm]) and [view_at] yields well-formed views ([SetOpsExtra.view_at_wf]).
+    Views derived from them by [find] / [left] / [right] / [split] are well-formed again
+    ([ViewsThm.v_find_spec], [v_side_spec]; C11), so the [view_wf] premise above is always met. *)
+Theorem C07_reachable (opsA : list (hop L)) (opsB : list (hop R)) qa qb va vb :
+  Forall (hop_ok w L) opsA -> Forall (hop_ok w R) opsB -> okp w qa -> okp w qb ->
+  t_view_at w fl L (root (hrun w fl L opsA)) qa = Some va ->
+  t_view_at w fl R (root (hrun w fl R opsB)) qb = Some vb ->
+  exists outd outc,
+    t_difference w fl L R (v_tree va) (v_tree vb) = Some outd /\
+    map fst outd = filter (key_absent (v_entries pfx R vb)) (v_entries pfx L va) /\
+    t_covering_difference w fl L R (v_tree va) (v_tree vb) = Some outc /\
+    outc = filter (uncovered (v_entries pfx R vb)) (v_entries pfx L va).
+Proof.
+  intros HA HB Hqa Hqb Ea Eb. apply C07_views.
+  - exact (view_at_wf pfx _ _ _ _ _ _ _ _ _ (laws w fl Hw) _ qa va (reachable_wfm w fl L Hw opsA HA) Hqa Ea).
+  - exact (view_at_wf pfx _ _ _ _ _ _ _ _ _ (laws w fl Hw) _ qb vb (reachable_wfm w fl R Hw opsB HB) Hqb Eb).
+Qed.
+
 End C07.
 
 (** Non-vacuity (w = 8).  Map A = {00/2 ↦ 1, 01/2 ↦ 2, 1/1 ↦ 3, 110/3 ↦ 4} over [nat] (node 0/1
@@ -235,3 +256,4 @@ Print Assumptions C07_right_empty.
 Print Assumptions C07_right_zero.
 Print Assumptions C07_covering_sub_difference.
 Print Assumptions C07_views.
+Print Assumptions C07_reachable.
